@@ -146,6 +146,9 @@ REFACTORS = [
   dict(id="ref:twin-C14_2", patch="twins/C14_2/twin.diff", silent=["C14"]),
   dict(id="ref:twin-C11_2", patch="twins/C11_2/twin.diff", silent=["C11"]),
   dict(id="ref:twin-C11_3", patch="twins/C11_3/twin.diff", silent=["C11"]),
+  dict(id="ref:twin-C37_3", patch="twins/C37_3/twin.diff", silent=["C08", "C37"]),
+  dict(id="ref:twin-C25_1", patch="twins/C25_1/twin.diff", silent=["C25"]),
+  dict(id="ref:twin-C04_2", patch="twins/C04_2/twin.diff", silent=["C04", "C08", "C09", "C10"]),
   dict(id="ref:sig-guard-forms", subs=[sub("support.py", "  if sig >= (1 << State.NSTATE):", "  if not (sig < 2 ** State.NSTATE):", nth=0)], silent=["C15"]),
 ]
 
